@@ -355,4 +355,39 @@ def rule_g(ctx: Ctx) -> None:
     base_url_chain(ctx, 'C09.g')
 
 
-RULES = [rule_a, rule_b, rule_c, rule_d, rule_e, rule_f, rule_g]
+def rule_h(ctx: Ctx) -> None:
+    """A copy behaves like the original: a `__copy__` that builds the new object through the constructor hands over every option the
+    constructor takes (a parameter left out silently falls back to its default - e.g. default settings instead of the schema's)."""
+    rule = 'C09.h'
+    n = 0
+    for c in ctx.idx.classes.values():
+        if not c.module.name.startswith(('xmlschema.validators', 'xmlschema.resources', 'xmlschema.namespaces', 'xmlschema.converters', 'xmlschema.loaders')):
+            continue
+        cp = c.methods.get('__copy__')
+        if cp is None or isinstance(cp.node, ast.Lambda):
+            continue
+        init = c.find_method('__init__')
+        if init is None:
+            continue
+        for cl in calls(cp.node):
+            if text(cl.func) not in ('type(self)', 'self.__class__', c.name):
+                continue
+            if any(k.arg is None for k in cl.keywords) or any(isinstance(a, ast.Starred) for a in cl.args):
+                continue        # options forwarded wholesale
+            ctx.analysed(cp.qualname)
+            ps = [p for p in init.params if p != 'self']
+            given = set(ps[:len(cl.args)]) | {k.arg for k in cl.keywords}
+            # parameters whose value the instance keeps (an attribute of the same name, possibly private): those must be handed over
+            src = text(init.node)
+            kept = [p for p in ps if f'self.{p} = ' in src or f'self._{p} = ' in src or f'self.{p}: ' in src]
+            missing = [p for p in kept if p not in given]
+            n += 1
+            ctx.ob(rule, f'{c.name}.__copy__: the constructor call hands over every option the instance keeps ({", ".join(kept) or "none"})', cp.loc(cl), not missing,
+                   '' if not missing else f'`{missing[0]}` is not passed: the copy is built with the default - e.g. a copy of the global maps of a schema opened with '
+                   'converter=…, defuse=… or a custom loader validates and decodes with the default options', key=f'{c.name}.__copy__|ctor-args')
+    ctx.floor(rule, 'constructor calls inside __copy__ methods', n, 1)
+    ctx.explain('C09.h: for every __copy__ that builds through `type(self)(…)`, the parameters of __init__ that the instance stores must all be '
+                'among the arguments.')
+
+
+RULES = [rule_a, rule_b, rule_c, rule_d, rule_e, rule_f, rule_g, rule_h]
